@@ -50,10 +50,13 @@ def one(job):
         n_masters = 3 if two_axes else rng.choice([2, 3])
         vals = [(0, 0, 1.0), (rng.choice([4, 8]), rng.choice([2, 6]), rng.choice([1.2, 1.5])), (rng.choice([-4, 2]), rng.choice([3, -3]), rng.choice([0.8, 1.1]))]
         # locations: axes declared wght then wdth (non-alphabetical), masters differ per axis
+        # non-integer coordinates are legal (registered wdth values 62.5 / 87.5 / 112.5, slnt -7.5 ...)
+        frac = seed % 2 == 1
+        w_hi = rng.choice([650.5, 412.5]) if frac else 900
         if two_axes:
-            locs = [{"wght": 400, "wdth": 100}, {"wght": 900, "wdth": 100}, {"wght": 400, "wdth": 150}]
+            locs = [{"wght": 400, "wdth": 100}, {"wght": w_hi, "wdth": 100}, {"wght": 400, "wdth": rng.choice([87.5, 112.5, 100.75]) if frac else 150}]
         else:
-            locs = [{"wght": 400}, {"wght": 900}, {"wght": 100}][:n_masters]
+            locs = [{"wght": 400}, {"wght": w_hi}, {"wght": 312.5 if frac else 100}][:n_masters]
         names = ["regular", "bold", "other"][:n_masters]
         for m, nm in enumerate(names):
             cli.write_svgs(d / nm, {"emoji_u1f600.svg": master_svg(0, m, vals), "emoji_u1f601.svg": master_svg(1, (m + 0) % len(vals), vals)})
@@ -145,7 +148,19 @@ def summarize(font_bytes):
 
 
 def compare(ctx, res, r):
+    from fontTools import ttLib
+
     m = {"seed": r["seed"]}
+    # designspace: every axis of the output spans exactly the hull of the declared master positions, default as declared
+    vf = ttLib.TTFont(io.BytesIO(r["vf"]), lazy=False)
+    declared_default = {"wght": 400, "wdth": 100}
+    for a in vf["fvar"].axes:
+        pos = [ms["loc"][a.axisTag] for ms in r["masters"] if a.axisTag in ms["loc"]]
+        want = (min(pos), declared_default[a.axisTag], max(pos))
+        got = (a.minValue, a.defaultValue, a.maxValue)
+        if any(abs(x - y) > 1e-4 for x, y in zip(got, want)):
+            res.add_cex(f"axis {a.axisTag} of the variable font spans {got}, the declared masters span {want}: a master's own location is not "
+                        "inside the designspace as declared", {"axis": a.axisTag, "fvar": got, "declared": want}, dict(m, site="c18-axis-range", axis=a.axisTag))
     for ms in r["masters"]:
         a, b = summarize(ms["inst"]), summarize(ms["static"])
         for cp in b:
@@ -183,7 +198,7 @@ def compare(ctx, res, r):
 
 
 def suite(ctx, res, n):
-    jobs = [(ctx.rng.getrandbits(32),) for _ in range(n)]
+    jobs = [(ctx.rng.getrandbits(32) * 2 + (i % 2),) for i in range(n)]   # odd seeds: non-integer master positions
     with ThreadPoolExecutor(max_workers=6) as ex:
         results = list(ex.map(one, jobs))
     for r in results:
